@@ -83,6 +83,9 @@ def build_mat(entry):
         return np.eye(d)           # an EXACT identity factor (A (x) 1 and 1 (x) A terms)
     if kind == "diag":
         return np.diag(r.randint(-2, 3, size=d).astype(float))   # diagonal (Z-type) generator: keeps a GHZ spectrum degenerate
+    if kind == "tiny":
+        # a generic generator of small magnitude (1e-3 .. 1e-6): the gate is close to, but not, the identity
+        return (r.standard_normal((d, d)) + 1j * r.standard_normal((d, d))) * 10.0 ** (-3 - seed % 4)
     raise ValueError(kind)
 
 
@@ -96,6 +99,59 @@ def apply_local(psi, axes, u):
     k = len(axes)
     res = np.tensordot(u, psi, axes=(list(range(k, 2 * k)), list(axes)))
     return np.moveaxis(res, list(range(k)), list(axes))
+
+
+# ---- badly scaled states: the same kind of random tree state with the magnitude of every tensor spread over many orders of magnitude ----
+SCALE_MODES = ["gauge", "tiny", "huge", "spread"]
+
+
+def draw_scales(seed, mode, n):
+    """one positive factor per node tensor (in build order). gauge: exponents in [-12, 12] that sum to (about) zero, the state has an
+    ordinary norm but its magnitude sits in a few tensors (a legitimate gauge of a tree state); tiny / huge: every tensor
+    10^-k / 10^k, k in 3..12 (an unnormalised state of very small / very large norm); spread: independent exponents in [-12, 12]"""
+    r = random.Random(seed * 7919 + 13)
+    if mode == "gauge":
+        ex = [r.randint(-12, 12) for _ in range(n)]
+        if n >= 2:
+            rest = -sum(ex[:-1])
+            ex[-1] = max(-12, min(12, rest))
+            r.shuffle(ex)
+    elif mode == "tiny":
+        k = r.randint(3, 12)
+        ex = [-k] * n
+    elif mode == "huge":
+        k = r.randint(3, 12)
+        ex = [k] * n
+    elif mode == "spread":
+        ex = [r.randint(-12, 12) for _ in range(n)]
+    else:
+        raise ValueError(mode)
+    return [10.0 ** e * r.uniform(1.0, 10.0) for e in ex]
+
+
+class ScaledDriver(Driver):
+    """the Layer-W driver with every freshly drawn node tensor multiplied by its scale factor (the recorded atom is the scaled tensor)"""
+
+    def __init__(self, scales, **kw):
+        super().__init__(**kw)
+        self._scales = list(scales)
+
+    def _rand(self, shape):
+        x = super()._rand(shape)
+        return x * (self._scales.pop(0) if self._scales else 1.0)
+
+
+def rel_close(got, ref, rtol, floor=0.0):
+    """|got - ref| <= rtol * max(floor, max|ref|) entrywise: a tolerance RELATIVE to the scale of the reference
+    (floor = 0: purely relative; an exactly vanishing reference demands an exactly vanishing result)"""
+    if got.shape != ref.shape:
+        return False
+    if not ref.size:
+        return True
+    scale = max(floor, float(np.max(np.abs(ref))))
+    if not np.all(np.isfinite(got)):
+        return False
+    return bool(np.max(np.abs(got - ref)) <= rtol * scale)
 
 
 # ---- truncation settings: the ways of switching a tolerance "off" / to its default ---------------------
@@ -343,7 +399,13 @@ class C08(Prop):
             "integer-nilpotent generators, 1-3 steps, truncation off or random (value or sum mode, max_bond_dim 1-4 that binds, tiny to large tolerances, renorm / sum_renorm on and off), "
             "plus a stratified bond-dimension-only family: max_bond_dim 1-3 below the exact rank (all dimensions >= 2) with every way of switching the tolerances off or to "
             "their default — (rel_tol, total_tol) in {(-inf,-inf) twice as often, (0,0), (1e-15,1e-15), (-inf,0), (0,-inf), (-inf,1e-15), (1e-15,-inf)}, value mode (80%) and sum mode, "
-            "the bond left by every single two-site gate and every bond after every step judged against max_bond_dim; observed after every sub-operation "
+            "the bond left by every single two-site gate and every bond after every step judged against max_bond_dim; "
+            "plus a badly-scaled family (stratified over gauge / tiny / huge / spread): the same random tree states, trees of 1-6 nodes (single-node trees included), with every node "
+            "tensor multiplied by its own factor m*10^e — gauge: e in [-12,12] summing to about 0 (ordinary norm, magnitude concentrated in a few tensors), tiny / huge: every tensor "
+            "10^-k / 10^k with k in 3..12 (norm down to ~1e-70 / up to ~1e70), spread: independent e in [-12,12] — generators additionally of magnitude 1e-3..1e-6, 7 of 8 with truncation "
+            "disabled and the state judged with a tolerance RELATIVE to the largest amplitude of the dense reference (1e-8, no floor at one; model tie and SVD contract relative to the "
+            "tensor's own magnitude, 1e-9), 1 of 8 with a bond-dimension-only truncation judged by the bond bound; the magnitude of the pair tensor handed to the SVD kernel is counted "
+            "per decade class (scale:pair-tensor ...); observed after every sub-operation "
             "of every gate; (swapmat) swap_gate(d), d = 0..6; plus a malformed stream (non-neighbours, unequal SWAP dimensions, three-site terms, "
             "unknown identifiers, wrong operator size, out-of-range from_lists indices) that both sides must reject at the same place. "
             "non-trivial = a tebd case with a two-site gate or a split case with at least two gates")
@@ -382,7 +444,9 @@ class C08(Prop):
         ("V", "new state vector = ordered product of dense unitaries applied to the old one (run_one_time_step on its own instance) — the end-to-end numerical "
               "counterpart of C08_tebd_step_value, which is a theorem about the model's diagrams with opaque atom tables, not about floating-point arrays; "
               "bond dimensions within [1, max_bond_dim] under truncation (after every two-site gate and after every step, for random tolerances and for every "
-              "tolerance-off idiom of TOL_IDIOMS combined with a binding max_bond_dim); caller's state untouched: dense numpy oracle"),
+              "tolerance-off idiom of TOL_IDIOMS combined with a binding max_bond_dim); for states whose tensors are scaled over 24 orders of magnitude (uneven gauge, tiny and "
+              "huge norm) the comparison is relative to the largest amplitude of the reference (1e-8), so a tiny-norm state is judged as strictly as a normalised one; "
+              "caller's state untouched: dense numpy oracle"),
     ]
     trusted_base = ["scipy.linalg.expm (validated against an independent series / eigendecomposition exponential, tolerance 1e-9 relative)",
                     "LAPACK SVD: U . (S Vh) contracts back to the input when nothing is truncated = the premise def_holds / tebd_contracts of "
@@ -420,6 +484,16 @@ class C08(Prop):
         for j in range(ctx.scale(10, 120) * budget_scale):
             cases.append({"kind": "tebd", "seed": rng.randrange(10 ** 9), "nnodes": rng.choice([2, 3, 3, 4, 4, 5]), "nsteps": rng.choice([1, 2, 2]),
                           "trunc": True, "malformed": False, "ints": False, "tol": sched[j % len(sched)]})
+        # badly scaled states (SCALE_MODES, stratified): uneven gauge / tiny norm / huge norm / independent spread of the tensor
+        # magnitudes over 24 orders of magnitude, single-node trees included; three quarters with truncation disabled (state judged
+        # RELATIVE to the scale of the dense reference), one quarter with a bond-dimension-only truncation (bond bound)
+        for j in range(ctx.scale(12, 160) * budget_scale):
+            trunc = j % 8 == 7
+            c = {"kind": "tebd", "seed": rng.randrange(10 ** 9), "nnodes": rng.choice([1, 2, 2, 3, 3, 4, 4, 5, 6]), "nsteps": rng.choice([1, 2, 2]),
+                 "trunc": trunc, "malformed": False, "ints": False, "scale": SCALE_MODES[j % len(SCALE_MODES)]}
+            if trunc:
+                c["tol"] = sched[(j // 8) % len(sched)]
+            cases.append(c)
         return cases
 
     def nontrivial(self, case):
@@ -435,6 +509,8 @@ class C08(Prop):
                 c["trunc" if x["trunc"] else "notrunc"] += 1
                 if x.get("tol") is not None:
                     c["trunc:bond-only-family"] += 1
+                if x.get("scale"):
+                    c[f"scale:{x['scale']}" + (":trunc" if x["trunc"] else ":notrunc")] += 1
         c.update(getattr(self, "_stats", {}))
         return dict(c)
 
@@ -529,7 +605,12 @@ class C08(Prop):
         rng = random.Random(case["seed"])
         nn = case["nnodes"]
         ghz = bool(case.get("ghz"))
-        drv = Driver(ttn_cls=TTNS, nprs=np.random.RandomState(case["seed"] % (2 ** 31)), ints=2 if case.get("ints") else None, ghz=ghz)
+        if case.get("scale"):
+            scales = draw_scales(case["seed"], case["scale"], nn)
+            drv = ScaledDriver(scales, ttn_cls=TTNS, nprs=np.random.RandomState(case["seed"] % (2 ** 31)))
+        else:
+            scales = None
+            drv = Driver(ttn_cls=TTNS, nprs=np.random.RandomState(case["seed"] % (2 ** 31)), ints=2 if case.get("ints") else None, ghz=ghz)
         dimc = rng.choice([(2,), (2, 3), (2, 3), (1, 2, 3), (2, 2, 3)])
         nopen = (1,) if (nn <= 2 or case.get("contr_name")) else (1, 1, 1, 1, 1, 1, 0, 2)
         if ghz:
@@ -565,7 +646,8 @@ class C08(Prop):
         if not elig:
             return {"skip": "no node with exactly one open leg"}
         spec = gen_spec(rng, site_dims, edges, rng.randrange(1, 6), allow3=False, from_lists_p=0.25,
-                        mats_kinds=("diag",) if ghz else ("nil",) if case.get("ints") else ("gen", "gen", "real", "herm", "nil"))
+                        mats_kinds=("diag",) if ghz else ("nil",) if case.get("ints") else
+                        ("gen", "gen", "real", "herm", "nil", "tiny") if case.get("scale") else ("gen", "gen", "real", "herm", "nil"))
         if case.get("contr_name") and edges:
             a, b = edges[0]
             spec["mats"] += [[site_dims[a], "gen", 1], [site_dims[b], "gen", 2]]
@@ -657,6 +739,9 @@ class C08(Prop):
               "raws0": {k: np.array(v) for k, v in t0._tensors.data.items()}}
         nopen_of = {k: len(n[3]) - ((n[1] is not None) + len(n[2])) for k, n in nodes0.items()}
         ob["nopen"] = nopen_of
+        if scales is not None:
+            ob["scales"] = scales
+            ob["tensor_mags"] = {k: float(np.max(np.abs(v))) if v.size else 0.0 for k, v in ob["raws0"].items()}
         ob["psi0"] = util.dense_ttn(copy.deepcopy(t0), ids)
         try:
             mats, tps, splitting = realise_spec(spec)
@@ -711,6 +796,13 @@ class C08(Prop):
                         tebd._apply_one_trotter_step(u)
                         gates_done.append({"ok": True, "stages": stages[n0:], "bond": (bonds[b0] if len(bonds) > b0 else None),
                                            "wf": self._structure(st)})
+                        if scales is not None and len(stages) - n0 == 3 and TMP in stages[n0 + 1]["raws"]:
+                            # magnitude of the gate-applied pair tensor the SVD kernel receives (how far from order one the family reaches)
+                            pm = float(np.max(np.abs(stages[n0 + 1]["raws"][TMP])))
+                            gates_done[-1]["pairmax"] = pm
+                            if pm > 0:
+                                self._stats["scale:pair-tensor " + ("<=1e-8" if pm <= 1e-8 else "<=1e-2" if pm <= 1e-2 else "<=1e2" if pm <= 1e2
+                                                                     else "<=1e8" if pm <= 1e8 else ">1e8")] += 1
                     except Exception as e:  # noqa
                         gates_done.append({"ok": False, "err": f"{type(e).__name__}: {e}", "stages": [], "bond": None})
                         raise
@@ -970,11 +1062,14 @@ class C08(Prop):
                         return f"gate {j} after {stg['op']}: cannot evaluate the model diagram of {kk}: {e}"
                     if val.shape != raw.shape or not np.allclose(val, raw, rtol=1e-9, atol=1e-9 * max(1.0, float(np.max(np.abs(raw))) if raw.size else 1.0)):
                         return f"gate {j} after {stg['op']}: tensor {kk} differs from the model diagram"
+                    if case.get("scale") and not rel_close(val, raw, 1e-9):
+                        return f"gate {j} after {stg['op']}: tensor {kk} differs from the model diagram (relative to its own magnitude {float(np.max(np.abs(raw))):.2e})"
             # [GateValue] the kernel contract of C08_two_site_gate_value / C08_tebd_step_value (def_holds on the record of
             # this split), numerically: the two SVD factors contracted over the new bond = the diagram the kernel
             # received (contracted pair with the gate attached); only when truncation is disabled
             if len(mst) == 3 and len(gi) == 2 and ob["svd"] is None:
-                d = self._kernel_contract(wmodel.model_obs_to_py(mst[1], idm), wmodel.model_obs_to_py(mst[2], idm), gi, ob["atoms"])
+                d = self._kernel_contract(wmodel.model_obs_to_py(mst[1], idm), wmodel.model_obs_to_py(mst[2], idm), gi, ob["atoms"],
+                                          floor=0.0 if case.get("scale") else 1.0)
                 if d:
                     return f"gate {j} {gi}: {d}"
         n_ok = sum(1 for g in gates if g["ok"])
@@ -1000,7 +1095,7 @@ class C08(Prop):
             return "model completes the step, implementation raised"
         return None
 
-    def _kernel_contract(self, m2, m3, gi, atoms):
+    def _kernel_contract(self, m2, m3, gi, atoms, floor=1.0):
         """[GateValue] U . (S.Vh) over the new bond == value of the diagram of the temporary node before the split"""
         tmpk = [k for k in m2["tkeys"] if k not in m3["tkeys"]]
         if len(tmpk) != 1 or any(k not in m3["tensors"] for k in gi):
@@ -1016,7 +1111,7 @@ class C08(Prop):
             rhs = np.einsum(va, [lab(w) for w in fa["axes"]], vb, [lab(w) for w in fb["axes"]], [lab(w) for w in D["axes"]])
         except Exception as e:  # noqa
             return f"cannot evaluate the kernel contract: {e}"
-        scale = max(1.0, float(np.max(np.abs(lhs))) if lhs.size else 1.0)
+        scale = max(floor, float(np.max(np.abs(lhs))) if lhs.size else 1.0)      # floor 0 (badly scaled family): relative to the pair tensor itself
         if lhs.shape != rhs.shape or not np.allclose(lhs, rhs, rtol=1e-9, atol=1e-9 * scale):
             return ("kernel contract violated: the two factors of split_node_svd contracted over the new bond differ from the "
                     f"gate-applied pair by {float(np.max(np.abs(lhs - rhs))) if lhs.shape == rhs.shape else 'shape'}")
@@ -1148,6 +1243,14 @@ class C08(Prop):
                 if got.shape != psi.shape or not np.allclose(got, psi, rtol=1e-8, atol=1e-8 * scale):
                     return (f"after step {stepno + 1}: state differs from the ordered product of the dense gates applied to the old state "
                             f"(max diff {float(np.max(np.abs(got - psi))) if got.shape == psi.shape else 'shape'}, scale {scale:.2e})")
+                if case.get("scale") and not rel_close(got, psi, 1e-8):
+                    # badly scaled family: the tolerance is relative to the magnitude of the dense reference itself (no floor at one),
+                    # so that a state of tiny norm is judged as strictly as a normalised one
+                    ref = float(np.max(np.abs(psi)))
+                    return (f"after step {stepno + 1}: state differs from the ordered product of the dense gates applied to the old state "
+                            f"(max diff {float(np.max(np.abs(got - psi))):.3e} = {float(np.max(np.abs(got - psi))) / ref if ref else float('inf'):.3e} "
+                            f"of the largest amplitude {ref:.3e} of the reference; tensor scale factors {[f'{x:.1e}' for x in ob.get('scales', [])]}, "
+                            f"bonds {ss['bonds']})")
             else:
                 mb = ob["svd"][0]
                 if stepno == 0:
